@@ -7,6 +7,7 @@
 import NutsModel.C18.Policy
 import NutsModel.C18.Cache
 import NutsProofs.Lemmas.C18
+import NutsProofs.Lemmas.C18Deep
 
 namespace Nuts.C18.Props
 open Nuts Nuts.C18
@@ -341,5 +342,49 @@ theorem deactivated_needs_flag (dec : List Nat) (cts : List Bytes) (pol : Policy
 /-- non-vacuity: a node with a deactivated did:web DID and a history-derived state -/
 example : sqlState [true, false] = .deactivated ∧ sqlState [true, false, true] = .active ∧
     nutsStateOf [true, false, true] = .deactivated := by decide
+
+/-! ### deepening round: the SQL lookup of the local-first resolver (wave 8) -/
+
+/-- `Latest` selects with `did = ?` on the exact DID string, newest version first, first row -/
+theorem fact_local_lookup_query : Facts.C18.latestQuery = latestQueryModelled := by decide
+
+/-- **The local lookup is exact.** Whatever the table holds (other tenants, DIDs that differ only in letter case, any
+    histories), the row `Latest` returns carries exactly the requested DID string, is a row of the table, and respects
+    the time bound. -/
+theorem local_lookup_exact (rows : List DocRow) (d : Bytes) (t : Int) (r : DocRow)
+    (h : sqlLatest rows d t = some r) : r.did = d ∧ r ∈ rows ∧ r.updatedAt ≤ t :=
+  sqlLatest_exact rows d t r h
+
+/-- rows of OTHER DIDs never influence a lookup: histories of case variants do not merge -/
+theorem local_lookup_ignores_other_dids (rows : List DocRow) (d : Bytes) (t : Int) :
+    sqlLatest rows d t = sqlLatest (rows.filter (fun r => r.did = d)) d t :=
+  sqlLatest_filter rows d t
+
+/-- refinement: the resolver on the SQL table (document built from the ROW) is the abstract `resolveLocal` on the
+    state the exact lookup yields; in particular the returned id is the requested DID -/
+theorem local_sql_refines (rows : List DocRow) (t : Int) (allow : Bool) (d : DID) :
+    sqlResolveLocal rows t allow d = resolveLocal (sqlLocalState rows t d) allow d :=
+  sqlResolveLocal_refines rows t allow d
+
+/-- end to end: resolution of `d` on a node with table `rows` (router, local-first chain, did:web fetch) is the
+    resolution on the node that holds ONLY `d`'s own versions — a DID that is not managed itself is looked up at its
+    own origin even when a case variant is managed, and a deactivated DID stays deactivated whatever its siblings do. -/
+theorem local_resolution_independent_of_other_dids (dec : List Nat) (cts : List Bytes) (pol : Policy) (lf strict : Bool)
+    (methods : List Bytes) (kd : DID → Bool) (ns : DID → LocalState) (rows : List DocRow) (t : Int) (allow : Bool) (d : DID)
+    (srv : Nat → Req → Option Resp) :
+    resolve dec cts pol lf strict { didMethods := methods, localState := sqlLocalState rows t, keyDecodes := kd, nutsState := ns } allow d srv =
+    resolve dec cts pol lf strict { didMethods := methods, localState := sqlLocalState (rows.filter (fun r => r.did = d.str)) t, keyDecodes := kd, nutsState := ns } allow d srv := by
+  have h : sqlLocalState rows t d = sqlLocalState (rows.filter (fun r => r.did = d.str)) t d := by
+    unfold sqlLocalState; rw [sqlLatest_filter]
+  unfold resolve
+  simp only [h]
+
+/-- non-vacuity: `…:iam:tenant` (3 versions, active) and `…:iam:Tenant` (2 versions, deactivated) in one table: each
+    lookup sees its own history; a third variant is absent -/
+example :
+    let lo : Bytes := [116]; let up : Bytes := [84]; let other : Bytes := [116, 84]
+    let rows := rowsOf lo [true, true, true] ++ rowsOf up [true, false]
+    rowState (sqlLatest rows lo 0) = .active ∧ rowState (sqlLatest rows up 0) = .deactivated ∧
+    rowState (sqlLatest rows other 0) = .absent ∧ (sqlLatest rows up 0).map (·.version) = some 1 := by decide
 
 end Nuts.C18.Props
